@@ -1317,10 +1317,14 @@ def formula_implies_f(f, g):
     return True
 
 
-def nearest_dominator(view, node):
-    """the last node (other than `node`) that every path from the function entry to `node` passes through"""
+def nearest_dominator(view, node, branching=True):
+    """the last node (other than `node`) that every path from the function entry to `node` passes through; with branching=True
+    the last such node that is a *decision* (a test / loop header / handler head), so that straight-line statements just in front
+    of `node` do not hide the guard they share with it"""
     cfg = view.cfg
     cands = [d for d in cfg.nodes if d.id != node.id and node.id in cfg.reachable(d.id) and view.dominated([node], [d])]
+    if branching:
+        cands = [d for d in cands if d.kind in ("test", "for", "except") or len(cfg.succ.get(d.id, [])) > 1] or cands
     best = None
     for d in cands:
         if all(o.id == d.id or view.dominated([d], [o]) for o in cands):
@@ -1399,6 +1403,7 @@ def group_condition(view, nodes, by_value=True):
     nodes = list(nodes)
     ids = {n.id for n in nodes}
     cands = [d for d in cfg.nodes if d.id not in ids and all(n.id in cfg.reachable(d.id) and view.dominated([n], [d]) for n in nodes)]
+    cands = [d for d in cands if d.kind in ("test", "for", "except") or len(cfg.succ.get(d.id, [])) > 1] or cands
     best = None
     for d in cands:
         if all(o.id == d.id or view.dominated([d], [o]) for o in cands):
